@@ -38,6 +38,7 @@ type vcgen struct {
 	overN, overL, overC map[ssa.Value]string
 	phiDepth           int
 	phiDone            map[*ssa.Phi]bool
+	phiGuardDepth      int
 }
 
 func newVC() *vcgen {
@@ -116,6 +117,12 @@ func (g *vcgen) atom(v ssa.Value) string {
 		} else if bits < 64 {
 			g.hyp(fmt.Sprintf("-%d ≤ %s", uint64(1)<<uint(bits-1), n))
 			g.hyp(fmt.Sprintf("%s < %d", n, uint64(1)<<uint(bits-1)))
+		} else {
+			g.hyp("-9223372036854775808 ≤ " + n)
+			g.hyp(n + " < 9223372036854775808")
+		}
+		if uns && bits == 64 {
+			g.hyp(n + " < 18446744073709551616")
 		}
 	}
 	return n
@@ -196,9 +203,27 @@ func (g *vcgen) lin(v ssa.Value) string {
 		si, su, sb := intInfo(x.X.Type())
 		di, du, db := intInfo(x.Type())
 		if si && di {
-			// value-preserving conversions only
+			// value-preserving conversions
 			if (su == du && sb <= db) || (su && !du && sb < db) {
 				return g.lin(x.X)
+			}
+			// sign-changing conversions of the same width (`uint(n-lo) <= uint(hi-lo)`, `int(u)`): the value is kept
+			// when it fits and moved by 2^bits when it does not — two cases, omega splits them
+			if sb == db && sb <= 64 {
+				a := g.atom(v)
+				e := g.lin(x.X)
+				p := "18446744073709551616"
+				h := "9223372036854775808"
+				if sb < 64 {
+					p = fmt.Sprintf("%d", uint64(1)<<uint(sb))
+					h = fmt.Sprintf("%d", uint64(1)<<uint(sb-1))
+				}
+				if !su && du {
+					g.hyp("(0 ≤ " + e + " ∧ " + a + " = " + e + ") ∨ (" + e + " < 0 ∧ " + a + " = " + e + " + " + p + ")")
+				} else if su && !du {
+					g.hyp("(" + e + " < " + h + " ∧ " + a + " = " + e + ") ∨ (" + e + " ≥ " + h + " ∧ " + a + " = " + e + " - " + p + ")")
+				}
+				return a
 			}
 		}
 		return g.atom(v)
@@ -211,6 +236,40 @@ func (g *vcgen) lin(v ssa.Value) string {
 				return g.lenOf(x.Call.Args[0])
 			case "cap":
 				return g.capOf(x.Call.Args[0])
+			}
+		}
+		if b, ok := x.Call.Value.(*ssa.Builtin); ok && b.Name() == "copy" && len(x.Call.Args) == 2 {
+			a := g.atom(v)
+			g.hyp("0 ≤ " + a)
+			g.hyp(a + " ≤ " + g.lenOf(x.Call.Args[0]))
+			g.hyp(a + " ≤ " + g.lenOf(x.Call.Args[1]))
+			return a
+		}
+		if f := x.Call.StaticCallee(); f != nil && f.Pkg != nil && (f.Pkg.Pkg.Path() == "crypto/subtle" || f.Pkg.Pkg.Path() == "crypto/internal/fips140/subtle") {
+			switch f.Name() {
+			case "ConstantTimeCompare", "ConstantTimeEq", "ConstantTimeByteEq", "ConstantTimeLessOrEq":
+				a := g.atom(v)
+				g.hyp("0 ≤ " + a)
+				g.hyp(a + " ≤ 1")
+				return a
+			}
+		}
+		// min(a, b, …) / max(a, b, …) over integers: bounded by every argument and equal to one of them
+		if b, ok := x.Call.Value.(*ssa.Builtin); ok && (b.Name() == "min" || b.Name() == "max") && len(x.Call.Args) >= 1 && len(x.Call.Args) <= 4 {
+			if isInt, _, _ := intInfo(x.Type()); isInt {
+				a := g.atom(v)
+				var eqs []string
+				for _, arg := range x.Call.Args {
+					t := g.lin(arg)
+					if b.Name() == "min" {
+						g.hyp(a + " ≤ " + t)
+					} else {
+						g.hyp(t + " ≤ " + a)
+					}
+					eqs = append(eqs, a+" = "+t)
+				}
+				g.hyp(strings.Join(eqs, " ∨ "))
+				return a
 			}
 		}
 		return g.atom(v)
@@ -398,6 +457,11 @@ func (g *vcgen) lenOf(v ssa.Value) string {
 		}
 	case *ssa.ChangeType:
 		return g.lenOf(x.X)
+	case *ssa.Call:
+		// append(a, b...): go/ssa passes the appended elements as one slice
+		if b, ok := x.Call.Value.(*ssa.Builtin); ok && b.Name() == "append" && len(x.Call.Args) == 2 {
+			return "(" + g.lenOf(x.Call.Args[0]) + " + " + g.lenOf(x.Call.Args[1]) + ")"
+		}
 	}
 	n := g.fresh("l")
 	lens[v] = n
@@ -497,6 +561,49 @@ func (g *vcgen) guards(b *ssa.BasicBlock) {
 						}
 						g.hyp(h)
 					}
+				}
+			}
+			// a short-circuit `a || b` / `a && b` evaluated as a value: cond = phi(true …, b) resp. phi(false …, b).  On the
+			// false branch of an ||-phi (true branch of an &&-phi) every edge that carries the constant is impossible, so
+			// control came through the one remaining edge: its value decides, and what guards that predecessor holds too.
+			if ph, ok := cond.(*ssa.Phi); ok && pol != 0 && g.phiGuardDepth < 4 && len(ph.Edges) == len(ph.Block().Preds) {
+				var rest []int
+				okShape := true
+				for k, e := range ph.Edges {
+					if c, isC := e.(*ssa.Const); isC && c.Value != nil && c.Value.Kind() == constant.Bool {
+						if constant.BoolVal(c.Value) == (pol < 0) {
+							continue // this edge would have made the condition true (false): not taken
+						}
+						okShape = false
+						continue
+					}
+					rest = append(rest, k)
+				}
+				if okShape && len(rest) == 1 {
+					k := rest[0]
+					pred := ph.Block().Preds[k]
+					e := ph.Edges[k]
+					p2 := pol
+					if u, ok := e.(*ssa.UnOp); ok && u.Op == token.NOT {
+						e = u.X
+						p2 = -p2
+					}
+					if bo, ok := e.(*ssa.BinOp); ok {
+						if op, ok := cmpLean[bo.Op]; ok {
+							xi, _, _ := intInfo(bo.X.Type())
+							yi, _, _ := intInfo(bo.Y.Type())
+							if xi && yi {
+								h := g.lin(bo.X) + " " + op + " " + g.lin(bo.Y)
+								if p2 < 0 {
+									h = "¬(" + h + ")"
+								}
+								g.hyp(h)
+							}
+						}
+					}
+					g.phiGuardDepth++
+					g.guards(pred)
+					g.phiGuardDepth--
 				}
 			}
 		}
